@@ -198,14 +198,19 @@ Proof. unfold ev_res. rewrite as_of_reload. reflexivity. Qed.
 Lemma forallb_tl {A} (p : A -> bool) l : forallb p l = true -> forallb p (tl l) = true.
 Proof. destruct l; simpl; [auto|]. intro H. apply andb_true_iff in H. tauto. Qed.
 
-Lemma relink_chain_total : forall (l : list ev) (prev : bool),
-  forallb is_name (if prev then l else tl l) = true -> relink_chain prev l = Ok (relink_chain_t prev l).
+Lemma relink_chain_names : forall (l : list ev) (prev : prevk),
+  forallb is_name l = true -> relink_chain prev l = Ok (relink_chain_t prev l).
 Proof.
-  induction l as [|v r IH]; intros prev H; simpl; [reflexivity|].
-  destruct prev; simpl in *.
-  - apply andb_true_iff in H as [Hv Hr]. destruct v; simpl in Hv; try discriminate. simpl.
-    rewrite (IH true) by assumption. reflexivity.
-  - rewrite (IH (is_name v)); [reflexivity|]. destruct (is_name v); [assumption|apply forallb_tl; assumption].
+  induction l as [|v r IH]; intros prev H; [reflexivity|].
+  cbn [forallb] in H. apply andb_true_iff in H as [Hv Hr]. destruct v; simpl in Hv; try discriminate.
+  cbn [relink_chain relink_chain_t]. rewrite (IH _ Hr). destruct (link_of prev); reflexivity.
+Qed.
+
+(* a chain whose elements after the first are names is always re-linked *)
+Lemma relink_chain_total : forall (first : ev) (r : list ev),
+  forallb is_name r = true -> relink_chain PvNone (first :: r) = Ok (relink_chain_t PvNone (first :: r)).
+Proof.
+  intros first r H. cbn [relink_chain relink_chain_t link_of]. rewrite (relink_chain_names _ _ H). reflexivity.
 Qed.
 
 (* facts about the regenerated class table, checked by computation *)
@@ -408,20 +413,18 @@ Proof.
     destruct (attr_values_ok_inv _ (Hattr eq_refl)) as (first & r & -> & Hr).
     cbn [map relf reload_ev relink_fields mapM String.eqb Ascii.eqb Bool.eqb].
     simpl.
-    assert (Hchain : relink_chain (is_name (reload_ev first)) (map reload_ev r)
-                     = Ok (relink_chain_t (is_name (reload_ev first)) (map reload_ev r))).
-    { apply relink_chain_total.
-      assert (Hn : forallb is_name (map reload_ev r) = true).
-      { rewrite forallb_map. rewrite forallb_forall in Hr. apply forallb_forall. intros x Hx. rewrite reload_is_name. auto. }
-      destruct (is_name (reload_ev first)); [assumption|apply forallb_tl; assumption]. }
+    assert (Hchain : relink_chain (next_prev PvNone (reload_ev first)) (map reload_ev r)
+                     = Ok (relink_chain_t (next_prev PvNone (reload_ev first)) (map reload_ev r))).
+    { apply relink_chain_names.
+      rewrite forallb_map. rewrite forallb_forall in Hr. apply forallb_forall. intros x Hx. rewrite reload_is_name. auto. }
     rewrite Hchain. reflexivity.
 Qed.
 
 (* re-encoding ignores parent links and the enum/str distinction *)
-Lemma relink_chain_t_enc : forall (l : list ev) (prev : bool), map enc_ev (relink_chain_t prev l) = map enc_ev l.
+Lemma relink_chain_t_enc : forall (l : list ev) (prev : prevk), map enc_ev (relink_chain_t prev l) = map enc_ev l.
 Proof.
-  induction l as [|v r IH]; intro prev; simpl; [reflexivity|]. rewrite IH. f_equal.
-  destruct prev; [|reflexivity]. destruct v; reflexivity.
+  induction l as [|v r IH]; intro prev; [reflexivity|]. cbn [relink_chain_t map]. rewrite IH. f_equal.
+  destruct (link_of prev); [|reflexivity]. destruct v; reflexivity.
 Qed.
 
 Lemma enc_reload_ev : forall e, enc_ev (reload_ev e) = enc_ev e.
@@ -447,37 +450,47 @@ Proof.
       destruct (mem_str s parameter_kind_values); reflexivity.
 Qed.
 
-Lemma enc_set_scope e : enc_ev (set_scope e) = enc_ev e.
+(* attaching changes parent links only: anything that does not look at links is unchanged.  [erase_ev] forgets the
+   links (and the enum/str typing); the JSON encoding factors through it. *)
+Definition eraf (kv : string * ev) : string * ev := match kv with (k, v) => (k, erase_ev v) end.
+
+Lemma map_eq_pointwise {A B} (f : A -> B) (g : A -> A) (r : list A) :
+  map f (map g r) = map f r -> forall x, In x r -> f (g x) = f x.
 Proof.
-  destruct e; try reflexivity. simpl. destruct (String.eqb cls "ExprAttribute"); [|reflexivity].
-  simpl. f_equal. f_equal. rewrite map_map. apply map_ext. intros [k v].
-  destruct (String.eqb k "values"); [|reflexivity]. destruct v; try reflexivity.
-  destruct l as [|x r]; [reflexivity|]. destruct x; reflexivity.
+  induction r as [|y r IH]; intros H x Hin; [contradiction|]. cbn [map] in H. inversion H as [[H1 H2]].
+  destruct Hin as [<-|Hin]; [exact H1|]. apply IH; assumption.
 Qed.
 
-Lemma enc_attach_lambda_param p : enc_ev (attach_lambda_param p) = enc_ev p.
+Lemma erase_attach_ev : forall e, erase_ev (attach_ev e) = erase_ev e.
 Proof.
-  destruct p; try reflexivity. simpl.
-  destruct (match field_str "kind" fs with Some k => (String.eqb k pk_var_positional || String.eqb k pk_var_keyword)%bool | None => false end);
-    [reflexivity|].
-  simpl. f_equal. f_equal. rewrite map_map. apply map_ext. intros [k v].
-  destruct (String.eqb k "default"); [rewrite enc_set_scope|]; reflexivity.
+  induction e using ev_ind'; try reflexivity.
+  - cbn [attach_ev erase_ev]. f_equal. rewrite map_map. apply map_ext_in. intros x Hx. rewrite Forall_forall in H. auto.
+  - cbn [attach_ev]. destruct (String.eqb c "ExprAttribute").
+    + cbn [erase_ev]. f_equal. rewrite map_map. apply map_ext_in. intros [k v] Hin.
+      rewrite Forall_forall in H. pose proof (H _ Hin) as Hv. cbn [snd] in Hv.
+      destruct (String.eqb k "values"); [|reflexivity]. destruct v as [| | | |l| |]; try reflexivity.
+      destruct l as [|v0 r]; [reflexivity|].
+      cbn [attach_ev erase_ev map] in Hv. inversion Hv as [[H0 Hr]].
+      cbn [erase_ev map]. rewrite H0. f_equal. f_equal. f_equal.
+      rewrite map_map. apply map_ext_in. intros x Hx. destruct (is_name x); [reflexivity|].
+      exact (map_eq_pointwise erase_ev attach_ev r Hr x Hx).
+    + cbn [erase_ev]. f_equal. rewrite map_map. apply map_ext_in. intros [k v] Hin.
+      rewrite Forall_forall in H. pose proof (H _ Hin) as Hv. cbn [snd] in Hv. rewrite Hv. reflexivity.
 Qed.
 
-Lemma enc_attach_field c k v : enc_ev (attach_field c k v) = enc_ev v.
+Lemma enc_erase_ev : forall e, enc_ev (erase_ev e) = enc_ev e.
 Proof.
-  unfold attach_field.
-  destruct (String.eqb c "ExprParameter" || (String.eqb c "ExprKeyword" && String.eqb k "function"))%bool; [reflexivity|].
-  destruct (String.eqb c "ExprLambda" && String.eqb k "parameters")%bool.
-  - destruct v; try reflexivity. simpl. f_equal. rewrite map_map. apply map_ext. intro. apply enc_attach_lambda_param.
-  - destruct v; try apply enc_set_scope. simpl. f_equal. rewrite map_map. apply map_ext. intro. apply enc_set_scope.
+  induction e using ev_ind'; try reflexivity.
+  - cbn [erase_ev enc_ev]. f_equal. rewrite map_map. apply map_ext_in. intros x Hx. rewrite Forall_forall in H. auto.
+  - cbn [erase_ev enc_ev]. f_equal. f_equal. rewrite map_map. apply map_ext_in. intros [k v] Hin.
+    rewrite Forall_forall in H. pose proof (H _ Hin) as Hv. cbn [snd] in Hv. rewrite Hv. reflexivity.
 Qed.
+
+Lemma erase_attach_top e : erase_ev (attach_top e) = erase_ev e.
+Proof. apply erase_attach_ev. Qed.
 
 Lemma enc_attach_top e : enc_ev (attach_top e) = enc_ev e.
-Proof.
-  destruct e; try reflexivity. simpl. f_equal. f_equal. rewrite map_map. apply map_ext. intros [k v].
-  rewrite enc_attach_field. reflexivity.
-Qed.
+Proof. rewrite <- (enc_erase_ev (attach_top e)), erase_attach_top. apply enc_erase_ev. Qed.
 
 (* ------------------------------------------------------------------------------------------------ *)
 (* 4. Pieces of an object: docstrings, decorators, parameters, labels                                 *)
@@ -945,11 +958,12 @@ Lemma enc_attach_extra x : enc_extra (attach_extra x) = enc_extra x.
 Proof.
   destruct x as [fp|bases decos|decos params ret|v a]; cbn [attach_extra enc_extra].
   - reflexivity.
-  - rewrite (map_enc_ext enc_deco attach_deco) by (intros; apply enc_attach_deco). reflexivity.
+  - rewrite (map_enc_ext enc_ev attach_top) by (intros; apply enc_attach_top).
+    rewrite (map_enc_ext enc_deco attach_deco) by (intros; apply enc_attach_deco). reflexivity.
   - rewrite (map_enc_ext enc_deco attach_deco) by (intros; apply enc_attach_deco).
     rewrite (map_enc_ext enc_param attach_param) by (intros; apply enc_attach_param).
     rewrite enc_attach_top. reflexivity.
-  - rewrite (enc_ev_field_ext "value" v (attach_top v)); auto using enc_attach_top.
+  - rewrite (enc_ev_field_ext "value" v (attach_top v)), (enc_ev_field_ext "annotation" a (attach_top a)); auto using enc_attach_top.
 Qed.
 
 Lemma kind_of_reload x : kind_of (reload_extra x) = kind_of x.
@@ -1081,40 +1095,35 @@ Definition w_lambda : ev :=
                       ("parameters", VList [VNode "ExprParameter" [("annotation", VNone); ("default", VNone);
                                                                    ("kind", VEnum "variadic positional"); ("name", VStr "a")]])].
 Example fixed_enum :
-  wf_slot w_lambda = true /\ decode (enc_ev w_lambda) = Ok (PExpr w_lambda) /\ slot_restored true w_lambda = true.
+  wf_slot w_lambda = true /\ decode (enc_ev w_lambda) = Ok (PExpr w_lambda) /\ slot_restored w_lambda = true.
 Proof. vm_compute. repeat split; reflexivity. Qed.
 
 (* names: Optional[List[Foo]] in an attached slot; a base class; a dotted default; a name attached to a method *)
-Lemma refuted_links_depth :
-  let e := ex_sub (nm "Optional") (ex_sub (nm "List") (nm "Foo")) in
-  wf_slot e = true /\ has_enum e = false /\ slot_restored true e = false /\
-  attach_top (reload_ev e) = ex_sub (nm "Optional") (ex_sub (VName "List" LNone) (VName "Foo" LNone)).
+(* repaired (8c597ee, 5995d8a, bc5643e, 47f36fc): names below the first layer, names in any slot (class bases and
+   attribute annotations included), dotted names and attributes of string literals come back with their links *)
+Example fixed_links :
+  (let e := ex_sub (nm "Optional") (ex_sub (nm "List") (nm "Foo")) in wf_slot e = true /\ slot_restored e = true) /\
+  (let e := ex_dotted "osp" "join" in wf_slot e = true /\ slot_restored e = true) /\
+  (let e := VNode "ExprAttribute" [("values", VList [VStr "'lit'"; VName "join" LStr])] in wf_slot e = true /\ slot_restored e = true) /\
+  (let e := VNode "ExprAttribute" [("values", VList [ex_call (nm "f") []; VName "res" LNone])] in wf_slot e = true /\ slot_restored e = true) /\
+  (let x := XClass [nm "Foo"; ex_dotted "sub" "Foo"] [] in extra_restored x = true) /\
+  (let x := XAttribute (nm "v") (ex_sub (nm "List") (nm "Foo")) in extra_restored x = true).
 Proof. vm_compute. repeat split; reflexivity. Qed.
 
-Lemma refuted_links_slot :
-  wf_slot (nm "Foo") = true /\ slot_restored false (nm "Foo") = false /\ slot_restored true (nm "Foo") = true.
-Proof. vm_compute. repeat split; reflexivity. Qed.
-
-Lemma refuted_links_chain :
-  let e := ex_dotted "osp" "join" in
-  wf_slot e = true /\ slot_restored true e = false /\
-  attach_top (reload_ev e) = VNode "ExprAttribute" [("values", VList [VName "osp" LScope; VName "join" LScope])].
-Proof. vm_compute. repeat split; reflexivity. Qed.
-
+(* F11: a name whose parent was neither the scope, nor the preceding name, nor "str" is not restorable from the document *)
 Lemma refuted_links_other :
-  wf_slot (VName "p" LOther) = true /\ slot_restored true (VName "p" LOther) = false /\
-  (let e := VNode "ExprAttribute" [("values", VList [VStr "'lit'"; VName "join" LStr])] in wf_slot e = true /\ slot_restored true e = false).
+  wf_slot (VName "p" LOther) = true /\ slot_restored (VName "p" LOther) = false /\
+  attach_top (reload_ev (VName "p" LOther)) = VName "p" LScope /\
+  (let e := ex_sub (nm "List") (VName "p" LOther) in wf_slot e = true /\ slot_restored e = false).
 Proof. vm_compute. repeat split; reflexivity. Qed.
 
 (* ------------------------------------------------------------------------------------------------ *)
 (* 12. Field-by-field equivalence of the reloaded tree                                                *)
 
-Definition eraf (kv : string * ev) : string * ev := match kv with (k, v) => (k, erase_ev v) end.
-
-Lemma relink_chain_t_erase : forall (l : list ev) (prev : bool), map erase_ev (relink_chain_t prev l) = map erase_ev l.
+Lemma relink_chain_t_erase : forall (l : list ev) (prev : prevk), map erase_ev (relink_chain_t prev l) = map erase_ev l.
 Proof.
-  induction l as [|v r IH]; intro prev; simpl; [reflexivity|]. rewrite IH. f_equal.
-  destruct prev; [|reflexivity]. destruct v; reflexivity.
+  induction l as [|v r IH]; intro prev; [reflexivity|]. cbn [relink_chain_t map]. rewrite IH. f_equal.
+  destruct (link_of prev); [|reflexivity]. destruct v; reflexivity.
 Qed.
 
 Lemma erase_reload_ev : forall e, erase_ev (reload_ev e) = erase_ev e.
@@ -1138,38 +1147,6 @@ Proof.
       rewrite <- Hm. generalize (map relf fs). intro L. unfold fix_kind_t. rewrite map_map. apply map_ext. intros [k v]. cbv beta iota.
       destruct (String.eqb k "kind"); [|reflexivity]. destruct v; try reflexivity.
       destruct (mem_str s parameter_kind_values); reflexivity.
-Qed.
-
-Lemma erase_set_scope e : erase_ev (set_scope e) = erase_ev e.
-Proof.
-  destruct e; try reflexivity. simpl. destruct (String.eqb cls "ExprAttribute"); [|reflexivity].
-  simpl. f_equal. rewrite map_map. apply map_ext. intros [k v].
-  destruct (String.eqb k "values"); [|reflexivity]. destruct v; try reflexivity.
-  destruct l as [|x r]; [reflexivity|]. destruct x; reflexivity.
-Qed.
-
-Lemma erase_attach_lambda_param p : erase_ev (attach_lambda_param p) = erase_ev p.
-Proof.
-  destruct p; try reflexivity. simpl.
-  destruct (match field_str "kind" fs with Some k => (String.eqb k pk_var_positional || String.eqb k pk_var_keyword)%bool | None => false end);
-    [reflexivity|].
-  simpl. f_equal. rewrite map_map. apply map_ext. intros [k v].
-  destruct (String.eqb k "default"); [rewrite erase_set_scope|]; reflexivity.
-Qed.
-
-Lemma erase_attach_field c k v : erase_ev (attach_field c k v) = erase_ev v.
-Proof.
-  unfold attach_field.
-  destruct (String.eqb c "ExprParameter" || (String.eqb c "ExprKeyword" && String.eqb k "function"))%bool; [reflexivity|].
-  destruct (String.eqb c "ExprLambda" && String.eqb k "parameters")%bool.
-  - destruct v; try reflexivity. simpl. f_equal. rewrite map_map. apply map_ext. intro. apply erase_attach_lambda_param.
-  - destruct v; try apply erase_set_scope. simpl. f_equal. rewrite map_map. apply map_ext. intro. apply erase_set_scope.
-Qed.
-
-Lemma erase_attach_top e : erase_ev (attach_top e) = erase_ev e.
-Proof.
-  destruct e; try reflexivity. simpl. f_equal. rewrite map_map. apply map_ext. intros [k v].
-  rewrite erase_attach_field. reflexivity.
 Qed.
 
 Lemma map_ext_comp {A B} (f : A -> B) (g : A -> A) l : (forall x, In x l -> f (g x) = f x) -> map f (map g l) = map f l.
@@ -1204,11 +1181,12 @@ Lemma erase_attach_extra x : erase_extra (attach_extra x) = erase_extra x.
 Proof.
   destruct x as [fp|bases decos|decos params ret|v a]; cbn [attach_extra erase_extra].
   - reflexivity.
-  - rewrite (map_ext_comp erase_deco attach_deco) by (intros; apply erase_attach_deco). reflexivity.
+  - rewrite (map_ext_comp erase_ev attach_top) by (intros; apply erase_attach_top).
+    rewrite (map_ext_comp erase_deco attach_deco) by (intros; apply erase_attach_deco). reflexivity.
   - rewrite (map_ext_comp erase_deco attach_deco) by (intros; apply erase_attach_deco).
     rewrite (map_ext_comp erase_param attach_param) by (intros; apply erase_attach_param).
     rewrite erase_attach_top. reflexivity.
-  - rewrite erase_attach_top. reflexivity.
+  - rewrite !erase_attach_top. reflexivity.
 Qed.
 Lemma erase_attach_tree t : erase (attach_tree t) = erase t.
 Proof. destruct t; [|reflexivity]. cbn [attach_tree erase]. rewrite erase_attach_extra. reflexivity. Qed.
@@ -1259,9 +1237,7 @@ Proof.
     inversion H; subst. simpl in H2. f_equal; [f_equal; auto|]. apply IH; assumption.
 Qed.
 
-Lemma slot_restored_true e : slot_restored true e = true -> attach_top (reload_ev e) = e.
-Proof. apply ev_eqb_eq. Qed.
-Lemma slot_restored_false e : slot_restored false e = true -> reload_ev e = e.
+Lemma slot_restored_true e : slot_restored e = true -> attach_top (reload_ev e) = e.
 Proof. apply ev_eqb_eq. Qed.
 
 Lemma map_id_in {A} (f : A -> A) l : (forall x, In x l -> f x = x) -> map f l = l.
@@ -1273,7 +1249,7 @@ Proof.
   destruct x as [fp|bases decos|decos params ret|v a]; cbn [extra_docs_fix extra_restored reload_extra attach_extra]; intros Hd Hr.
   - reflexivity.
   - apply andb_true_iff in Hr as [Hb Hdc]. rewrite forallb_forall in Hb, Hdc. f_equal.
-    + apply map_id_in. intros; apply slot_restored_false; auto.
+    + rewrite map_map. apply map_id_in. intros; apply slot_restored_true; auto.
     + rewrite map_map. apply map_id_in. intros d Hin. specialize (Hdc _ Hin). unfold deco_restored in Hdc.
       destruct d as [dv dl de]. unfold attach_deco, reload_deco. simpl in *. rewrite (slot_restored_true _ Hdc). reflexivity.
   - apply andb_true_iff in Hr as [Hr Hret]. apply andb_true_iff in Hr as [Hdc Hp].
@@ -1284,7 +1260,7 @@ Proof.
       apply andb_true_iff in Hp as [Hpa Hpd]. destruct p as [pn pa pk pd pdoc]. unfold attach_param, reload_param. simpl in *.
       rewrite (slot_restored_true _ Hpa), (slot_restored_true _ Hpd), (reload_optdoc_fix _ Hd). reflexivity.
     + apply slot_restored_true. assumption.
-  - apply andb_true_iff in Hr as [Hv Ha]. rewrite (slot_restored_true _ Hv), (slot_restored_false _ Ha). reflexivity.
+  - apply andb_true_iff in Hr as [Hv Ha]. rewrite (slot_restored_true _ Hv), (slot_restored_true _ Ha). reflexivity.
 Qed.
 
 Lemma attach_reload_identity : forall t,
